@@ -1,5 +1,6 @@
 import VirtioVerif.Model.Proto
 import VirtioVerif.Model.Layout
+import VirtioVerif.Model.Init
 /-!
 Native line-protocol driver over all models: one request line in, one reply line out.
 `case …` lines reset per-case state and are echoed as `case`.
@@ -15,6 +16,7 @@ def step (w : World) (line : String) : World × String :=
   match line.trimAscii.toString.splitOn " " with
   | "case" :: _ => (World.fresh, "case")
   | "layout" :: op :: rest => (w, Layout.handle op (Proto.parseArgs rest))
+  | "init" :: op :: rest => (w, Init.handle op (Proto.parseArgs rest))
   | _ => (w, "bad-op")
 
 partial def loop (h : IO.FS.Stream) (out : IO.FS.Stream) (w : World) : IO Unit := do
